@@ -113,8 +113,8 @@ pub fn gen_orl(seed: u64) -> OrlScenario {
         users.push(OrlUser { idx: i, start, reactive, ignore_mod: if rng.chance(1, 4) { rng.range(2, 3) as u32 } else { 0 } });
     }
     if users.iter().all(|u| u.start.is_empty()) {
-        users[0].start.push((1, 1));
-        users[0].start.push((1, 2));
+        users[0].start.push((1, 901));
+        users[0].start.push((1, 902));
     }
     OrlScenario {
         users,
